@@ -25,8 +25,8 @@ import Nstd.Sha.Spec
                       (model side: the generated `Transform` of the selected configuration)
   A digest line is `FAULT` when the model's ghost flag recorded an out-of-range array read.
   The observable is the digest; `update`/`rst` print `ok` only.
-  `update`/`updatenull`/`final`/`rst` execute the bodies TRANSLATED from the sources (`Nstd.Generated.Sha256Body`), `hash`/`hmac`
-  the hand-written model functions (proved equal: `generated_bodies_are_the_model`), so both are tied to the real code.
+  `update`/`updatenull`/`final`/`rst`/`hash` execute the bodies TRANSLATED from the sources (`Nstd.Generated.Sha256Body`), `hmac`
+  the hand-written model function (built on the model's `update`/`finalize`, proved equal: `generated_bodies_are_the_model`), so both are tied to the real code.
 -/
 open Nstd.Common
 namespace Nstd.Sha
@@ -37,9 +37,10 @@ def hexOf (l : List UInt8) : String := toHex (l.map UInt8.toNat)
 /-- a digest, or `FAULT` when the model recorded an out-of-range array read -/
 def digestLine (ok : Bool) (d : List UInt8) : String := if ok then hexOf d else "FAULT"
 
+/-- digest bytes from the TRANSLATED `Sha256::hash`, ghost flag from the model's hasher -/
 def hashLine (b : List UInt8) : String :=
   let r := finalize (update init b)
-  digestLine r.2.ok r.1
+  digestLine r.2.ok (Nstd.Generated.Sha256Body.hash b)
 
 def hmacLine (k m : List UInt8) : String :=
   let r := hmac k m
